@@ -332,14 +332,18 @@ def signature(case, verdict, failed):
     """classification of a failing case for known_findings.json; the known classes require that the
     implementation did exactly what the model of today's code predicts (agree)"""
     t = set(verdict.get("tags", []))
-    agree = bool(verdict.get("agree"))
-    if agree and "drift" in t and case["k"] >= 1:
+    generic = f"{case['op']}:k{case['k']}:{case['kind']}:{'re:' if case.get('re') else ''}{'/'.join(sorted(failed))}"
+    if not verdict.get("agree"):
+        return generic
+    if "crash:min-empty" in t:
+        return "nonuniform:min-of-empty-inds" if "crash-op:nonuniform" in t else generic
+    if "drift" in t and case["k"] >= 1:
         return "depth>0:updatePayloads-enumerates-nonempty-only"
-    if agree and "crash:min-empty" in t and case["op"] == "nonuniform" and not case.get("re"):
-        return "nonuniform:min-of-empty-inds"
-    if agree and case["op"] == "unequal" and case.get("sizes") == [] and not case.get("re"):
+    empty_sizes = (case["op"] == "unequal" and case.get("sizes") == []) or \
+                  bool(case.get("re") and case["re"]["op"] == "unequal" and case["re"].get("sizes") == [])
+    if empty_sizes:
         return "unequal:empty-sizes-drop-everything"
-    return f"{case['op']}:k{case['k']}:{case['kind']}:{'re:' if case.get('re') else ''}{'/'.join(sorted(failed))}"
+    return generic
 
 
 def shrink_candidates(case):
